@@ -1319,14 +1319,45 @@ impl DetachedSiblingsRange {
         }
         Ok(())
     }
-    #[verifier::external_body]
     pub fn transplant<T>(
         self,
         arena: &mut Arena<T>,
         parent: Option<NodeId>,
         previous_sibling: Option<NodeId>,
         next_sibling: Option<NodeId>,
-    ) -> Result<(), ConsistencyError> {
+    ) -> (res: Result<(), ConsistencyError>)
+        // @props C01 C03 C04 C05 C08
+        requires
+            exists|c: Seq<int>|
+                transplant_pre(old(arena).nodes@, c, self.first, self.last, parent, previous_sibling, next_sibling),
+        ensures
+            // @ob C05.transplant_succeeds C05
+            res is Ok,
+            final(arena).first_free_slot == old(arena).first_free_slot,
+            final(arena).last_free_slot == old(arena).last_free_slot,
+            // @ob C03.transplant_exact_effect C03 C04 C01 C08
+            forall|c: Seq<int>| #[trigger]
+                is_chain(old(arena).nodes@, self.first.idx(), c) ==> transplant_post(
+                    old(arena).nodes@,
+                    final(arena).nodes@,
+                    c,
+                    self.first,
+                    self.last,
+                    parent,
+                    previous_sibling,
+                    next_sibling,
+                ),
+    {
+        let ghost c = choose|c: Seq<int>|
+            transplant_pre(old(arena).nodes@, c, self.first, self.last, parent, previous_sibling, next_sibling);
+        proof {
+            assert(c.contains(self.first.idx())) by {
+                assert(c[0] == self.first.idx());
+            }
+            assert(c.contains(self.last.idx())) by {
+                assert(c[c.len() - 1] == self.last.idx());
+            }
+        }
         if cfg!(debug_assertions) {
             if let Some(previous_sibling) = previous_sibling {
                 debug_assert_eq!(arena[previous_sibling].parent, parent);
@@ -1346,8 +1377,26 @@ impl DetachedSiblingsRange {
             }
         }
         self.rewrite_parents(arena, parent)?;
+        let ghost m1 = arena.nodes@;
+        proof {
+            assert(reparent_post(old(arena).nodes@, m1, c, parent));
+        }
         connect_neighbors(arena, parent, previous_sibling, Some(self.first));
+        let ghost m2 = arena.nodes@;
         connect_neighbors(arena, parent, Some(self.last), next_sibling);
+        proof {
+            lemma_chain_unique(old(arena).nodes@, self.first.idx(), c);
+            assert(transplant_post(
+                old(arena).nodes@,
+                arena.nodes@,
+                c,
+                self.first,
+                self.last,
+                parent,
+                previous_sibling,
+                next_sibling,
+            ));
+        }
         if cfg!(debug_assertions) {
             debug_assert_triangle_nodes!(arena, parent, previous_sibling, Some(self.first));
             debug_assert_triangle_nodes!(arena, parent, Some(self.last), next_sibling);
